@@ -69,7 +69,9 @@ def particle_number_measurement(
 
     probability_map = reduced_state.fock_probabilities_map
 
-    frequency_map = sample_from_probability_map(probability_map, shots)
+    frequency_map = sample_from_probability_map(
+        probability_map, shots, rng=state._config._python_rng
+    )
 
     branches = []
 
